@@ -34,12 +34,18 @@ def build_cli():
 
 
 def run(exe, args, cwd, timeout=20):
-    try:
-        pr = subprocess.run([exe] + args, cwd=cwd, capture_output=True, text=True, timeout=timeout,
-                            env=dict(os.environ, RUST_LOG='error', RUST_BACKTRACE='0'))
-        return pr.returncode, pr.stdout + pr.stderr
-    except subprocess.TimeoutExpired:
-        return 'timeout', ''
+    for attempt in range(8):
+        try:
+            pr = subprocess.run([exe] + args, cwd=cwd, capture_output=True, text=True, timeout=timeout,
+                                env=dict(os.environ, RUST_LOG='error', RUST_BACKTRACE='0'))
+            return pr.returncode, pr.stdout + pr.stderr
+        except subprocess.TimeoutExpired:
+            return 'timeout', ''
+        except OSError as ex:
+            # ETXTBSY: the binary / script was written a moment ago and a child spawned by another thread still holds it open
+            if ex.errno != 26 or attempt == 7:
+                raise
+            time.sleep(0.05 * (attempt + 1))
 
 
 def tree(root, files):
